@@ -794,3 +794,42 @@ for _pass, _mk, _what, _ens in (
            'shape_case': True, 'serves': ['C13']}
     REG.add('sqlparse.engine.grouping.' + _pass, 'shape: ' + _what, type('pass_shape_' + _pass, (), _ns))
     MORE_PASS_SHAPE_CASES.append(('sqlparse.engine.grouping.' + _pass, 'shape: ' + _what))
+
+
+# --------------------------------------------------------------------------------- align_comments on a WITH statement (C18)
+
+def _shape_cte_comment(ex, st):
+    """WITH ws Identifier(cte) <newline> Comment <newline> SELECT ...: a comment on its own line between the CTE definitions
+    and the main keyword"""
+    from contracts.sql import _mk_leaf, _mk_node, _ws1
+    W = ex.W
+    T, sql = W.T, W.sql
+    wth = _mk_leaf(ex, st, None, 'kw_with', (T.Keyword.CTE,), normalized='WITH')
+    dml = _mk_leaf(ex, st, None, 'kw_dml', (T.Keyword.DML,), normalized='SELECT')
+    cte = _mk_leaf(ex, st, None, 'ctename', (T.Name,), name_leaf=True)
+    ctxt = _mk_leaf(ex, st, None, 'comment_text', (T.Comment.Single, T.Comment.Multiline))
+    comment = lambda g: _mk_node(ex, st, sql.Comment, 'comment', [ctxt], g)   # noqa: E731
+    ident = lambda g: _mk_node(ex, st, sql.Identifier, 'cte', [cte], g)     # noqa: E731
+    w1, w2, w3 = _ws1(ex, st, 'ws1'), _ws1(ex, st, 'ws2'), _ws1(ex, st, 'ws3')
+    node = _mk_node(ex, st, sql.Statement, 'tlist', [wth, w1, ident, w2, comment, w3, dml])
+    st.ghost.update({'WITH': wth, 'DML': dml, 'CTE': cte, 'CTXT': ctxt, 'W2': w2, 'W3': w3})
+    return node
+
+
+class align_comments_cte:
+    """C18 "the DML keyword following the CTE definitions ... ignores comments": get_type() walks from the CTE definitions to
+    the next non-whitespace child, so a comment between them and the main keyword must have been folded into the
+    definitions' group by align_comments - whatever whitespace (blank or line break) separates them.  Afterwards the child
+    that follows the definitions (skipping whitespace) is the DML keyword."""
+    exec_class = HeapExec
+    params = {'tlist': _shape_cte_comment}
+    requires = []
+    ensures = ['len(tlist.tokens) == 5', 'tlist.tokens[0] is WITH', 'isinstance(tlist.tokens[2], sql.Identifier)',
+               'tlist.tokens[2].tokens[0] is CTE', 'len(tlist.tokens[2].tokens) == 3', 'tlist.tokens[2].tokens[1] is W2',
+               'isinstance(tlist.tokens[2].tokens[2], sql.Comment)', 'tlist.tokens[3] is W3', 'tlist.tokens[4] is DML']
+    raises = []
+    shape_case = True
+    serves = ['C18']
+
+
+REG.add('sqlparse.engine.grouping.align_comments', 'shape: WITH cte <comment> SELECT', align_comments_cte)
